@@ -526,6 +526,7 @@ def _run_sequence(spec, rec, spin):
     M = lib(gen.build, qv, model_kind, spec["base"], what="build_base")
     seen = {l for l in M.variables if _is_anc(l)}
     recorded = []                      # (rel, raw terms dict) in the order added
+    lib_filters = []                   # warning filters installed by the library during this case
     classes = set()
     nontrivial = False
     copy_at = spec.get("copy_at")
@@ -581,9 +582,13 @@ def _run_sequence(spec, rec, spin):
         # a validity query before the model changes (anything remembered from it must not survive the change)
         lib(M.is_solution_valid, dict(xs[0]), what="is_solution_valid(before)")
         with warnings.catch_warnings(record=True) as caught:
-            # "always" goes to the END of the filter list: a filter the library itself installed earlier in this case
-            # keeps its precedence
-            warnings.simplefilter("always", append=True)
+            # "always" in front of whatever the environment has installed (a 'default' or 'once' filter of the test
+            # runner would swallow the second identical warning of a process), and in front of that the filters the
+            # library itself installed earlier in this case
+            warnings.simplefilter("always")
+            for f in reversed(lib_filters):
+                warnings.filters.insert(0, f)
+            warnings._filters_mutated()
             filters_before = list(warnings.filters)
             G = None
             if via_update:
@@ -597,10 +602,8 @@ def _run_sequence(spec, rec, spin):
             else:
                 lib(getattr(M, "add_constraint_%s_zero" % rel), P, what="add_constraint_%s_zero" % rel, **kwargs)
             filters_added = [f for f in warnings.filters if f not in filters_before]
-        for f in reversed(filters_added):          # the recording context restored the list: put them back
-            warnings.filters.insert(0, f)
         if filters_added:
-            warnings._filters_mutated()
+            lib_filters[:0] = filters_added      # kept in force for the rest of this case
             classes.add("library_changed_warning_filters")
         msgs = [str(w.message) for w in caught if issubclass(w.category, qv.utils.QUBOVertWarning)]
         warned_unsat = any("cannot be satisfied" in m for m in msgs)
